@@ -118,8 +118,10 @@ def _options(run, c):
     h = c["header"]
     if h == "list":
         o["header"] = new_list(run, [C("User-Agent: x"), C("X-Custom: 1")])
+        run.memo["@caller_header"] = (o["header"], [C("User-Agent: x"), C("X-Custom: 1")])
     elif h == "empty-list":
         o["header"] = new_list(run, [])
+        run.memo["@caller_header"] = (o["header"], [])
     elif h == "dict":
         o["header"] = new_dict(run, {"User-Agent": C("x"), "X-Custom": C("1")}, False, "hdr")
     elif h == "dict-key-version":
@@ -180,13 +182,20 @@ def r1(ctx, classes=None):
             nk = len([e for e in o.effects if e.name == "newkey"])
             if nk > 1:
                 fails.setdefault("key-draws", (label, f"{nk} keys generated for one request", o))
+            # the caller's own objects are read, never written: a header list reused for the next connection must be unchanged
+            ch = o.run.memo.get("@caller_header")
+            if ch is not None:
+                now = list(o.run.cell(ch[0]).items)
+                if now != ch[1]:
+                    fails.setdefault("caller-header-list-mutated", (label, f"the caller's header list is {[template_text(x) for x in now]} after the call (was {[template_text(x) for x in ch[1]]}): "
+                                                                           f"lines of this request leak into the next connection that reuses the list", o))
     for field in ("outcome", "GET", "Upgrade", "Host", "Origin", "Sec-WebSocket-Key", "Sec-WebSocket-Version", "Connection",
-                  "Sec-WebSocket-Protocol", "User-Agent", "X-Custom", "Cookie", "terminator", "returned-key", "key-draws"):
+                  "Sec-WebSocket-Protocol", "User-Agent", "X-Custom", "Cookie", "terminator", "returned-key", "key-draws", "caller-header-list-mutated"):
         f = fails.get(field)
         ctx.ob(f"{Q}:grid:{field}", f is None, f"{n} option classes agree with the reference" if f is None else f"[{f[0]}] {f[1]}", loc,
                {"options": f[0], "path": path_text(f[2])} if f else None)
     other = [k for k in fails if k not in ("outcome", "GET", "Upgrade", "Host", "Origin", "Sec-WebSocket-Key", "Sec-WebSocket-Version", "Connection",
-                                           "Sec-WebSocket-Protocol", "User-Agent", "X-Custom", "Cookie", "terminator", "returned-key", "key-draws")]
+                                           "Sec-WebSocket-Protocol", "User-Agent", "X-Custom", "Cookie", "terminator", "returned-key", "key-draws", "caller-header-list-mutated")]
     for k in other:
         f = fails[k]
         ctx.ob(f"{Q}:grid:other:{k}", False, f"[{f[0]}] {f[1]}", loc)
@@ -272,3 +281,10 @@ def r3(ctx):
 def r4(ctx):
     from .c18 import r1 as parse_url_table
     parse_url_table(ctx)
+
+
+@rule("R-C10-5", min_instances=4, title="options reach the request builder as the caller gave them (through WebSocket.connect too): one Key line -- the caller's when the header dict names one -- and the offered subprotocols")
+def r5(ctx):
+    from .c09 import r3 as key_and_subprotocols
+    key_and_subprotocols(ctx)
+
